@@ -172,7 +172,7 @@ class Gen:
         self.u("directive:" + k)
         tgt = self.r.pick(["val", "obj.a", "x", "data.v", "list[0]"])
         if k == "custom":
-            name = self.r.pick(["v-foo", "vFoo", "v-my-dir", "vMyDir", "v-foo:arg", "v-foo_a", "v-foo_a_b", "vBar_m", "v-x:y_m"])
+            name = self.r.pick(["v-foo", "vFoo", "v-my-dir", "vMyDir", "v-foo:arg", "v-foo_a", "v-foo_a_b", "vBar_m", "v-x:y_m", "v-visible", "vValid", "v-view:x_m"])
             form = self.r.below(6)
             v = self.expr(d + 1, False)
             return [name + "={%s}" % v, name + "={[%s]}" % v, name + "={[%s, 'arg']}" % v,
